@@ -910,8 +910,11 @@ func (r *c20Run) exec(op c20Op) {
 			n++
 		}
 		if n == len(merged) && len(merged) != len(replaced) {
-			dst.m = merged
-			r.count("UnmarshalJSON into non-empty set: merged")
+			// Stale ids surviving an unmarshal are exactly the "stale entry" the property is
+			// about (a policy that stays effective although the set was reloaded): the model of
+			// `ps.UnmarshalJSON(doc)` is "ps now holds the document", as for a fresh set.
+			dst.m = replaced
+			r.count("UnmarshalJSON into non-empty set: merged (stale ids kept)")
 		} else {
 			dst.m = replaced
 			if len(merged) != len(replaced) {
@@ -1123,7 +1126,7 @@ func C20(c *mon.Ctx) {
 	c.Assume = []string{
 		"policy ids are valid UTF-8 (encoding/json replaces invalid bytes, so JSON cannot preserve other ids)",
 		"policy texts and documents are ASCII, so byte and character columns coincide",
-		"UnmarshalJSON into a NON-empty set: the property only fixes the result for a new set; the monitor accepts replacement or merge, whichever is observed, and requires the result to be exactly that map",
+		"UnmarshalJSON into a NON-empty set is modelled as replacement (the set holds exactly the document afterwards, as for a new set): ids that survive from before are stale entries",
 		"policy identity is compared by (@id annotation, effect, MarshalCedar text, Position), not by pointer: a container that cloned policies would still satisfy the property",
 		"MarshalCedar's separator is not fixed by the oracle: the document must parse back to exactly the set's policies in lexicographic (byte-wise) id order",
 		"a PolicySet returned together with an error by NewPolicySetFromBytes, and the zero-value PolicySet, are outside the history alphabet (their Add panics on a nil map; the documentation does not promise they are usable)",
